@@ -258,3 +258,8 @@ def _(v):
                     if head != "A " or mag not in tail or token not in tail.split(mag, 1)[1]:
                         bad.append((str(q), g))
     v.prove("magnitude_and_unit_in_all_four_formats", not bad, detail=repr(bad[:3]))
+    # 'the unit rendered after it' in LaTeX: a bare % starts a TeX comment and swallows the closing brace, so it is no rendering of the unit
+    import re
+    from chempy.printing.numbers import number_to_scientific_latex
+    texts = [number_to_scientific_latex(5 * u.percent), number_to_scientific_latex(50 * u.percent, 5 * u.percent), Reaction({"A": 1}, {"B": 1}, 5 * u.percent, checks=()).latex({}, with_param=True)]
+    v.prove("percent_is_escaped_in_latex", all("%" in t and re.search(r"(?<!\\)%", t) is None for t in texts), detail=repr(texts))
